@@ -130,7 +130,9 @@ func genManaged(r *vm.Rand, sections int, knownPlayer pk.UUID) managedPacket {
 	mk := func(kind string, id packetid.ClientboundPacketID, fs ...pk.FieldEncoder) managedPacket {
 		return managedPacket{kind, pk.Marshal(id, fs...)}
 	}
-	i32 := func() int32 { return []int32{0, 1, -1, 5, 6, 7, 127, 128, 255, 256, -128, 1 << 15, -2147483648, 2147483647}[r.Intn(14)] }
+	i32 := func() int32 {
+		return []int32{0, 1, -1, 5, 6, 7, 127, 128, 255, 256, -128, 1 << 15, -2147483648, 2147483647}[r.Intn(14)]
+	}
 	text := func() chat.Message {
 		switch r.Intn(3) {
 		case 0:
@@ -160,12 +162,17 @@ func genManaged(r *vm.Rand, sections int, knownPlayer pk.UUID) managedPacket {
 	case 4:
 		// tags of the dimension_type / chat_type registries: ids inside and outside the registry
 		reg := []string{"minecraft:dimension_type", "minecraft:chat_type", "minecraft:damage_type", "minecraft:unknown"}[r.Intn(4)]
+		ids := []int32{0, 1, 2, 3, -1, 1000}
+		if r.Intn(3) == 0 { // the registries a configuration packet of this session may have filled (up to 300 entries)
+			reg = registryIDs[r.Intn(len(registryIDs))]
+			ids = []int32{0, 1, 255, 256, 257, 299, 300, -1}
+		}
 		fs := []pk.FieldEncoder{pk.VarInt(1), pk.Identifier(reg), pk.VarInt(2)}
 		for t := 0; t < 2; t++ {
 			n := r.Intn(4)
 			fs = append(fs, pk.Identifier(fmt.Sprintf("verif:tag%d", t)), pk.VarInt(n))
 			for k := 0; k < n; k++ {
-				fs = append(fs, pk.VarInt([]int32{0, 1, 2, 3, -1, 1000}[r.Intn(6)]))
+				fs = append(fs, pk.VarInt(ids[r.Intn(len(ids))]))
 			}
 		}
 		return mk("UpdateTags", packetid.ClientboundUpdateTags, fs...)
@@ -302,7 +309,14 @@ func genConfig(r *vm.Rand) managedPacket {
 		return managedPacket{"config." + kind, pk.Marshal(id, fs...)}
 	}
 	text := chat.TranslateMsg("chat.type.text", chat.Text("a"), chat.Text(str(r)))
-	switch r.Intn(14) {
+	switch r.Intn(18) {
+	case 14, 15, 16:
+		return genRegistryData(r)
+	case 17:
+		if r.Bool() { // (ends the configuration: the bot reports the reason as its error)
+			return mk("Disconnect", packetid.ClientboundConfigDisconnect, text)
+		}
+		return mk("Disconnect", packetid.ClientboundConfigDisconnect, rawBytes(nbtComponentShape(r)))
 	case 0:
 		return mk("CookieRequest", packetid.ClientboundConfigCookieRequest, pk.Identifier("verif:"+str(r)))
 	case 1:
@@ -363,6 +377,116 @@ func genConfig(r *vm.Rand) managedPacket {
 		return mk("CustomReportDetails", packetid.ClientboundConfigCustomReportDetails, fs...)
 	}
 	return mk("ServerLinks", packetid.ClientboundConfigServerLinks, pk.VarInt(1), pk.Boolean(true), pk.VarInt(0), pk.String("http://verif"))
+}
+
+// registryIDs: the registries of the library's codec (registry/codec.go), an unknown one, the empty name.
+var registryIDs = []string{"minecraft:chat_type", "minecraft:damage_type", "minecraft:dimension_type", "minecraft:trim_material", "minecraft:trim_pattern",
+	"minecraft:worldgen/biome", "minecraft:wolf_variant", "minecraft:painting_variant", "minecraft:banner_pattern", "minecraft:enchantment", "minecraft:jukebox_song",
+	"minecraft:unknown", "", "minecraft:dimension_type ", "chat_type"}
+
+// genRegistryData: a registry-data packet for any registry id, in the shapes the reader has branches or growth
+// steps for: a few entries, more entries than the registry's initial capacity (256), entries without data,
+// repeated keys, data of another shape than the registry's element type, no entries.
+func genRegistryData(r *vm.Rand) managedPacket {
+	id := registryIDs[r.Intn(len(registryIDs))]
+	elem := func() *refnbt.Value {
+		switch id {
+		case "minecraft:chat_type":
+			return comp("chat", decoration("chat.type.text", paramSets[r.Intn(len(paramSets))]), "narration", decoration("chat.type.text.narrate", paramSets[r.Intn(len(paramSets))]))
+		case "minecraft:damage_type":
+			return comp("message_id", cstr("x"), "scaling", cstr("never"), "exhaustion", refnbt.Fl(0x3f000000))
+		case "minecraft:dimension_type":
+			return dimension(heights[r.Intn(len(heights))], -64)
+		}
+		return comp("asset_name", cstr("minecraft:"+str(r)), "n", refnbt.In(int32(r.Intn(9))))
+	}
+	var keys []string
+	var data []*refnbt.Value
+	var shape string
+	switch r.Intn(6) {
+	case 0:
+		shape = "few-entries"
+		for k := r.Range(1, 4); k > 0; k-- {
+			keys, data = append(keys, fmt.Sprintf("minecraft:e%d", k)), append(data, elem())
+		}
+	case 1:
+		n := []int{255, 256, 257, 300}[r.Intn(4)]
+		shape = "entries-around-256"
+		small := elem()
+		for k := 0; k < n; k++ {
+			keys, data = append(keys, fmt.Sprintf("minecraft:e%d", k)), append(data, small)
+		}
+	case 2:
+		shape = "entries-without-data"
+		for k := r.Range(1, 5); k > 0; k-- {
+			keys = append(keys, fmt.Sprintf("minecraft:e%d", k))
+			if r.Bool() {
+				data = append(data, nil)
+			} else {
+				data = append(data, elem())
+			}
+		}
+	case 3:
+		shape = "repeated-keys"
+		for k := r.Range(2, 5); k > 0; k-- {
+			keys, data = append(keys, "minecraft:same"), append(data, elem())
+		}
+	case 4:
+		shape = "data-of-another-shape"
+		other := []*refnbt.Value{cstr("s"), refnbt.In(7), nbtList(refnbt.Compound, comp("a", refnbt.B(1))), comp("chat", cstr("not a compound"), "height", cstr("tall"), "message_id", refnbt.In(1)),
+			comp("chat", comp("translation_key", refnbt.In(1), "parameters", cstr("x")))}
+		keys, data = []string{"minecraft:a", "minecraft:b"}, []*refnbt.Value{elem(), other[r.Intn(len(other))]}
+	default:
+		shape = "no-entries"
+	}
+	p := registryPacket(id, keys, data)
+	known := "known-id"
+	if !strings.HasPrefix(id, "minecraft:") || strings.HasSuffix(id, "unknown") || strings.HasSuffix(id, " ") {
+		known = "unknown-id"
+	}
+	return managedPacket{"config.RegistryData(" + known + "," + shape + ")", p}
+}
+
+// managedSeq counts the managed-bot sessions of this process.
+var managedSeq int
+
+// tagsAfter builds a tags packet for one registry of cnt entries: a tag inside it (first, last, middle entry) and
+// a tag at its edge (the last entry, and the first missing one or another of the last).
+func tagsAfter(r *vm.Rand, id string, cnt int, pid packetid.ClientboundPacketID) pk.Packet {
+	return pk.Marshal(pid, pk.VarInt(1), pk.Identifier(id), pk.VarInt(2), pk.Identifier("verif:in"), pk.VarInt(3), pk.VarInt(0), pk.VarInt(max(cnt-1, 0)), pk.VarInt(cnt/2),
+		pk.Identifier("verif:edge"), pk.VarInt(2), pk.VarInt(max(cnt-1, 0)), pk.VarInt(max([]int{cnt, cnt - 1, cnt - 1, cnt - 2}[r.Intn(4)], 0)))
+}
+
+// registryDataHead reads the registry id and the entry count off a registry-data body.
+func registryDataHead(b []byte) (id string, count int, ok bool) {
+	l, n, err := refwire.DecVarInt(b)
+	if err != nil || l < 0 || int64(n)+int64(l) > int64(len(b)) {
+		return "", 0, false
+	}
+	cnt, _, err := refwire.DecVarInt(b[n+int(l):])
+	if err != nil || cnt < 0 {
+		return "", 0, false
+	}
+	return string(b[n : n+int(l)]), int(cnt), true
+}
+
+// genLogin returns one login-state packet the bot's joinLogin consumes before the profile.
+func genLogin(r *vm.Rand) managedPacket {
+	mk := func(kind string, id packetid.ClientboundPacketID, fs ...pk.FieldEncoder) managedPacket {
+		return managedPacket{"login." + kind, pk.Marshal(id, fs...)}
+	}
+	switch r.Intn(7) {
+	case 0, 1, 2:
+		msgid := []int32{0, 1, -1, 127, 128, -2147483648, 2147483647}[r.Intn(7)]
+		return mk("CustomQuery", packetid.ClientboundLoginCustomQuery, pk.VarInt(msgid), pk.Identifier("verif:"+str(r)), pk.PluginMessageData(r.Bytes([]int{0, 1, 30, 300}[r.Intn(4)])))
+	case 3, 4, 5:
+		return mk("CookieRequest", packetid.ClientboundLoginCookieRequest, pk.Identifier("verif:"+str(r)))
+	}
+	// (ends the login: the bot reports the reason as its error)
+	if r.Bool() {
+		return mk("Disconnect", packetid.ClientboundLoginLoginDisconnect, pk.String(jsonComponentShape(r)))
+	}
+	return mk("Disconnect", packetid.ClientboundLoginLoginDisconnect, chat.JsonMessage(chat.TranslateMsg("multiplayer.disconnect.banned", chat.Text(str(r)))))
 }
 
 // mutateBody applies one structural mutation to a packet body (declared lengths stay below the allocation guard).
@@ -446,10 +570,20 @@ func managedBot(c *vm.Ctx, r *vm.Rand) {
 	}
 	// every fourth session: compression negotiated at login and/or configuration-state packets before the registries
 	threshold, compress := 0, false
-	var cfgScript []managedPacket
+	var cfgScript, loginScript []managedPacket
 	if r.Intn(4) == 0 {
 		compress = r.Bool()
 		threshold = []int{-1, 0, 1, 64, 256}[r.Intn(5)]
+		// every eighth session: login-state packets before the profile (plugin requests, cookie requests, a disconnect)
+		for k := r.Intn(3) * r.Intn(2); k > 0; k-- {
+			mp := genLogin(r)
+			if r.Intn(3) == 0 {
+				var how string
+				mp.p.Data, how = mutateBody(r, mp.p.Data)
+				mp.kind += "/" + how
+			}
+			loginScript = append(loginScript, mp)
+		}
 		for k := r.Intn(4); k > 0; k-- {
 			mp := genConfig(r)
 			if r.Intn(3) == 0 {
@@ -458,10 +592,36 @@ func managedBot(c *vm.Ctx, r *vm.Rand) {
 				mp.kind += "/" + how
 			}
 			cfgScript = append(cfgScript, mp)
+			// tags that refer to the registry just sent: its first, last and first missing entry (config state, and
+			// again in the play state unless the well-formed registries that follow replace it)
+			if id, cnt, ok := registryDataHead(mp.p.Data); ok && strings.HasPrefix(mp.kind, "config.RegistryData(known-id") && !strings.Contains(mp.kind, "/") && r.Bool() {
+				cfgScript = append(cfgScript, managedPacket{"config.UpdateTags(after RegistryData)", tagsAfter(r, id, cnt, packetid.ClientboundConfigUpdateTags)})
+				if id != "minecraft:dimension_type" && id != "minecraft:chat_type" {
+					script = append(script, managedPacket{"UpdateTags(after RegistryData)", tagsAfter(r, id, cnt, packetid.ClientboundUpdateTags)})
+				}
+			}
+		}
+	}
+	// every sixteenth session: a registry of the codec that the later packets do not replace is filled during
+	// configuration (a few entries, or more than its initial capacity), tags refer to it there and again as the
+	// first play packet after the player introduction
+	if managedSeq++; managedSeq%16 == 0 {
+		for {
+			mp := genRegistryData(r)
+			id, cnt, ok := registryDataHead(mp.p.Data)
+			if !ok || !strings.HasPrefix(mp.kind, "config.RegistryData(known-id") || strings.Contains(mp.kind, "another-shape") || id == "minecraft:dimension_type" || id == "minecraft:chat_type" {
+				continue
+			}
+			cfgScript = append(cfgScript, mp, managedPacket{"config.UpdateTags(after RegistryData)", tagsAfter(r, id, cnt, packetid.ClientboundConfigUpdateTags)})
+			script = append(script[:1:1], append([]managedPacket{{"UpdateTags(after RegistryData)", tagsAfter(r, id, cnt, packetid.ClientboundUpdateTags)}}, script[1:]...)...)
+			break
 		}
 	}
 	if compress {
 		notes = append(notes, fmt.Sprintf("login: set compression threshold %d", threshold))
+	}
+	for _, s := range loginScript {
+		notes = append(notes, fmt.Sprintf("%s id=%d data=%s", s.kind, s.p.ID, vm.Hex(s.p.Data[:min(len(s.p.Data), 600)])))
 	}
 	for _, s := range cfgScript {
 		notes = append(notes, fmt.Sprintf("%s id=%d data=%s", s.kind, s.p.ID, vm.Hex(s.p.Data[:min(len(s.p.Data), 600)])))
@@ -480,15 +640,27 @@ func managedBot(c *vm.Ctx, r *vm.Rand) {
 		if conn.ReadPacket(&p) != nil || conn.ReadPacket(&p) != nil { // handshake, login start
 			return
 		}
+		if len(loginScript) > 0 {
+			// the bot answers some of these, and a bot that gives up does not close its end: whatever it writes is
+			// drained from here on, and the acknowledgement is not waited for (the bot reads in order anyway)
+			go io.Copy(io.Discard, raw)
+			for _, lp := range loginScript {
+				if conn.WritePacket(lp.p) != nil {
+					return
+				}
+			}
+		}
 		if compress {
 			conn.WritePacket(pk.Marshal(packetid.ClientboundLoginLoginCompression, pk.VarInt(threshold)))
 			conn.SetThreshold(threshold)
 		}
 		conn.WritePacket(pk.Marshal(packetid.ClientboundLoginGameProfile, pk.UUID{1}, pk.String("bot"), pk.VarInt(0), pk.Boolean(true)))
-		if conn.ReadPacket(&p) != nil { // login acknowledged
-			return
+		if len(loginScript) == 0 {
+			if conn.ReadPacket(&p) != nil { // login acknowledged
+				return
+			}
+			go io.Copy(io.Discard, raw) // net.Pipe has no buffer: keep reading whatever the bot answers
 		}
-		go io.Copy(io.Discard, raw) // net.Pipe has no buffer: keep reading whatever the bot answers
 		for _, cp := range cfgScript {
 			if conn.WritePacket(cp.p) != nil {
 				return
@@ -528,10 +700,11 @@ func managedBot(c *vm.Ctx, r *vm.Rand) {
 	cl.Events.AddGeneric(bot.PacketHandler{Priority: 127, F: func(pk.Packet) error { dispatched++; return nil }})
 	done := make(chan struct{})
 	var joinErr, gameErr error
+	var clientEnd net.Conn
 	go func() {
 		defer close(done)
 		c.Guard("live/managed-bot", wit, func() {
-			if joinErr = cl.JoinServerWithOptions("managed.test:25565", bot.JoinOptions{MCDialer: pipeDialer{serve}}); joinErr != nil {
+			if joinErr = cl.JoinServerWithOptions("managed.test:25565", bot.JoinOptions{MCDialer: pipeDialer{serve: serve, client: &clientEnd}}); joinErr != nil {
 				return
 			}
 			defer cl.Close()
@@ -551,11 +724,27 @@ func managedBot(c *vm.Ctx, r *vm.Rand) {
 	for _, s := range cfgScript {
 		c.Cover("managed.sent." + s.kind)
 	}
+	for _, s := range loginScript {
+		c.Cover("managed.sent." + s.kind)
+	}
 	if joinErr != nil {
+		// a bot that gives up during login or configuration leaves its connection open: the scripted server would
+		// wait in Write for ever
+		if clientEnd != nil {
+			clientEnd.Close()
+		}
 		c.Cover("managed.join-refused")
+		for _, s := range append(append([]managedPacket{}, loginScript...), cfgScript...) {
+			if strings.HasSuffix(s.kind, "Disconnect") {
+				c.Cover("managed.refused-after." + s.kind)
+			}
+		}
 		return
 	}
 	c.Cover("managed.joined")
+	for _, s := range append(append([]managedPacket{}, loginScript...), cfgScript...) {
+		c.Cover("managed.joined-after." + s.kind) // the bot took this packet and went on
+	}
 	for k, n := range events {
 		c.CoverN("managed.event."+k, int64(n))
 	}
@@ -575,6 +764,9 @@ func managedBot(c *vm.Ctx, r *vm.Rand) {
 			}
 		}
 		c.Cover("managed.handled." + k)
+		if s.kind == "UpdateTags(after RegistryData)" {
+			c.Cover("managed.handled.UpdateTags-after-RegistryData")
+		}
 	}
 	if height < 0 || height > 4064 {
 		c.Cover("managed.registry.hostile-height")
@@ -590,7 +782,6 @@ func indexByte(s string, b byte) int {
 	}
 	return len(s) - 1
 }
-
 
 // okTransport answers every HTTP request with 204 (the session server's "joined" reply): the bot's online
 // login can then proceed to the point where it uses the key the server sent.
@@ -652,7 +843,7 @@ func hostileEncryption(c *vm.Ctx, r *vm.Rand) {
 	go func() {
 		defer close(done)
 		c.Guard("live/encryption-request", wit, func() {
-			err = cl.JoinServerWithOptions("enc.test:25565", bot.JoinOptions{MCDialer: pipeDialer{serve}})
+			err = cl.JoinServerWithOptions("enc.test:25565", bot.JoinOptions{MCDialer: pipeDialer{serve: serve}})
 			if err == nil {
 				cl.Close()
 			}
